@@ -4,16 +4,19 @@
 ```python
 async def gather_excs(aws, only=BaseException):
     futs = [aio.ensure_future(aw) for aw in aws]
-    results = await aio.gather(*futs, return_exceptions=True)
-    for fut, res in zip(futs, results):
-        raised = fut.cancelled() or fut.exception() is not None
-        if raised and isinstance(res, only):
-            yield res
+    await aio.gather(*futs, return_exceptions=True)
+    for fut in futs:
+        try:
+            exc = fut.exception()
+        except aio.CancelledError as cancelled:
+            exc = cancelled
+        if exc is not None and isinstance(exc, only):
+            yield exc
 async def raise_first_exc(aws, only=BaseException):
     async for exc in gather_excs(aws, only):
         raise exc
 ```
-(after fix 246fb33: an awaitable that finishes normally with an exception *object* as its result has
+(after fixes 246fb33 and the follow-up for CancelledError subclasses: an awaitable that finishes normally with an exception *object* as its result has
 raised nothing — the slot records what was raised, `Aw.ret` what was merely returned).
 
 `asyncio.gather(..., return_exceptions=True)` is modelled as a discrete-event run: the children
